@@ -234,6 +234,32 @@ def run(ctx):
         emp = D.calls_to(r"^darling_core::util::shape::ShapeSet::is_empty$")
         ctx.ob("C18.B.wrong-kind-guard", b.key, "is_empty guards", len(emp) == 2, "%d" % len(emp))
     ctx.floor("C18.B", "derived validators", n, 5)
+    # the declared set reaches the generator as declared: options.supports -> Impl.supports is the identity
+    # (a set dropped or narrowed on the way means no validator, i.e. everything is accepted)
+    for rx, what in ((r"impl core::convert::From<&'a darling_core::options::from_derive::FdiOptions> for darling_core::codegen::from_derive_impl::FromDeriveInputImpl<'a>>::from$", "FdiOptions -> FromDeriveInputImpl"),
+                     (r"impl core::convert::From<&'a darling_core::options::from_variant::FromVariantOptions> for darling_core::codegen::from_variant_impl::FromVariantImpl<'a>>::from$", "FromVariantOptions -> FromVariantImpl")):
+        cands = ctx.fns_matching(rx)
+        if not cands:
+            ctx.anchor_missing("C18.wire.supports-identity", rx, "conversion not found")
+            continue
+        g = cands[0]
+        aggs = ctx.find_aggregates(g, r"Impl$")
+        vals = []
+        for blk, i, st in aggs:
+            r = st["r"]
+            for n_, o in zip(r["fields"], r["ops"]):
+                if n_ == "supports":
+                    vals.append(ctx.expr(g, o))
+        ctx.ob("C18.wire.supports-identity", g.key, what, vals == ["a1.supports"], "Impl.supports <= %s" % vals)
+    for name in ("from_derive_impl::FromDeriveInputImpl<'_>", "from_variant_impl::FromVariantImpl<'_>"):
+        g = ctx.fn(common.TOK % name)
+        if g:
+            # the validator / check is interpolated from self.supports, whatever it contains
+            srcs = [ctx.expr(b2, t["args"][0]) for b2 in [g] for _, t in ctx.find_calls(b2, r"^core::option::Option::<T>::map$") if ctx.expr(b2, t["args"][0]) == "self.supports"]
+            matched = [1 for blk in g.normal_blocks() if False]
+            sw = [ctx.pc_strs(g, tk.blk) for c in [g] + ctx.closures_of(g) for tk in tpl.Templates(c).events if tk.kind == "interp" and tk.ty and "Shape" in tk.ty]
+            ctx.ob("C18.wire.supports-emitted", g.key, "supports.map(|s| quote!(.. #s ..))", len(srcs) == 1 or any(any(ctx._sat(d, r"^is_some\(self\.supports\)=True$") for d in pcs) and all(len(d) <= 1 for d in pcs) for pcs in sw),
+                   "the shape set is interpolated from self.supports under no other condition: map sources %s, interpolation conditions %s" % (srcs, sw))
     # callers in element-level derives: variant-level supports
     f = ctx.fn(common.TOK % "from_variant_impl::FromVariantImpl<'_>")
     if f:
